@@ -86,9 +86,9 @@ func (t *Term) SInt64() int64 {
 }
 
 type TB struct {
-	tab  map[termKey]*Term
-	all  []*Term
-	vars map[string]*Term
+	tab         map[termKey]*Term
+	all         []*Term
+	vars        map[string]*Term
 	True, False *Term
 }
 
@@ -327,6 +327,18 @@ func (tb *TB) Eq(a, b *Term) *Term {
 			}
 			return tb.Not(a)
 		}
+	}
+	// (x + k1) == k2  ->  x == k2-k1   (wrap-around arithmetic makes this exact for BV; Int trivially)
+	if b.IsConst() && (a.Op == "bvadd" || (a.Op == "+" && a.S.K == SInt)) {
+		if a.Args[1].IsConst() {
+			return tb.Eq(a.Args[0], tb.Arith(token.SUB, b, a.Args[1], true))
+		}
+		if a.Args[0].IsConst() {
+			return tb.Eq(a.Args[1], tb.Arith(token.SUB, b, a.Args[0], true))
+		}
+	}
+	if a.IsConst() && (b.Op == "bvadd" || (b.Op == "+" && b.S.K == SInt)) {
+		return tb.Eq(b, a)
 	}
 	if a.ID > b.ID {
 		a, b = b, a
